@@ -452,7 +452,7 @@ func newDocsRun(r *gen.Rand, malformed, rich bool, tmp string) *docsRun {
 		panic(err)
 	}
 	d.bo = index.Options{IndexDir: d.dir, RepositoryDescription: zoekt.Repository{Name: "r", Branches: []zoekt.RepositoryBranch{{Name: "main", Version: "v"}}},
-		DisableCTags: true, SizeMax: d.sizeMax, LargeFiles: []string{"big/**"}}
+		DisableCTags: true, SizeMax: d.sizeMax, LargeFiles: []string{"big/**"}} // (unit level: names are f<k> or big/f<k>)
 	d.bo.SetDefaults()
 	d.builder, err = index.NewBuilder(d.bo)
 	if err != nil {
@@ -550,6 +550,60 @@ type repoSpec struct {
 
 // scriptedRepos: one repository per ignore file of the pool, on two branches, with every path that file is about
 // present (and some it must not touch) — so each kind of ignore line is exercised end to end on every run.
+// largeFiles is the LargeFiles option of every run: a later pattern overrides an earlier one, `!` negates.
+// (A non-empty list also keeps the cat-file path usable with git < 2.50, which has no --filter.)
+var largeFiles = []string{"big/**", "!big/two.bin", "keep/**"}
+
+// allowLarge: is path exempted from SizeMax (written from the option's documentation, not from IgnoreSizeMax)
+func allowLarge(path string) bool {
+	if path == "big/two.bin" {
+		return false
+	}
+	return strings.HasPrefix(path, "big/") || strings.HasPrefix(path, "keep/")
+}
+
+// membershipRepo: k branches and, for every non-empty subset S of them, one file that exists exactly on the branches
+// of S (same content everywhere), plus one path whose content differs per branch — every pattern of branch
+// membership a document's branch list has to reproduce.  The indexed order is a rotation of the branch list.
+func membershipRepo(base repoSpec, k, rot int, withHEAD bool) repoSpec {
+	names := []string{"main", "dev", "rel", "exp", "old"}[:k]
+	sp := repoSpec{Contents: base.Contents, Branches: names, SizeMax: base.SizeMax, Missing: -1, Trees: map[string]map[string]fileSpec{}}
+	for bi, b := range names {
+		t := map[string]fileSpec{"per-branch.txt": {Content: bi % 6, Mode: "100644"}}
+		for mask := 1; mask < 1<<k; mask++ {
+			if mask&(1<<bi) != 0 {
+				t[fmt.Sprintf("set/%02d.txt", mask)] = fileSpec{Content: mask % 4, Mode: "100644"}
+			}
+		}
+		sp.Trees[b] = t
+	}
+	for i := range names {
+		sp.Indexed = append(sp.Indexed, names[(i+rot)%k])
+	}
+	if withHEAD {
+		sp.Indexed = append([]string{"HEAD"}, sp.Indexed...)
+	}
+	return sp
+}
+
+// sizeRepo: blobs around the size limit that sit at several paths, some exempted by LargeFiles and some not, in both
+// sort orders (the limit is decided per path, not per blob), on both reading paths.
+func sizeRepo(base repoSpec) repoSpec {
+	sp := repoSpec{Contents: base.Contents, Branches: []string{"main", "dev"}, Indexed: []string{"HEAD", "main", "dev"},
+		SizeMax: base.SizeMax, Missing: -1, Trees: map[string]map[string]fileSpec{}}
+	large, over, exact := 6, 11, 10
+	sp.Trees["main"] = map[string]fileSpec{
+		"a/notes.txt": {Content: large, Mode: "100644"}, "keep/notes.txt": {Content: large, Mode: "100644"}, "zz/notes.txt": {Content: large, Mode: "100644"},
+		"big/one": {Content: over, Mode: "100644"}, "big/two.bin": {Content: over, Mode: "100644"}, "c/over.txt": {Content: over, Mode: "100644"},
+		"big/exact": {Content: exact, Mode: "100644"}, "d/exact.txt": {Content: exact, Mode: "100644"}, "small.txt": {Content: 0, Mode: "100644"},
+	}
+	sp.Trees["dev"] = map[string]fileSpec{
+		"keep/first.txt": {Content: over, Mode: "100644"}, "later/copy.txt": {Content: over, Mode: "100644"},
+		"a/notes.txt": {Content: large, Mode: "100755"}, "big/two.bin": {Content: large, Mode: "100644"}, "small.txt": {Content: 1, Mode: "100644"},
+	}
+	return sp
+}
+
 func scriptedRepos() []repoSpec {
 	base := genRepo(gen.NewRand(1))
 	var out []repoSpec
@@ -572,6 +626,7 @@ func scriptedRepos() []repoSpec {
 		}
 		out = append(out, sp)
 	}
+	out = append(out, membershipRepo(base, 4, 0, false), membershipRepo(base, 3, 1, true), sizeRepo(base))
 	return out
 }
 
@@ -595,9 +650,9 @@ func genRepo(r *gen.Rand) repoSpec {
 	)
 	paths := []string{"a.txt", "b.txt", "dir/c.txt", "dir/sub/d.go", "e", "dir/f.txt", "z/y/x.c", "e2/inner", "README", "dir/g",
 		"secret/x.txt", "big/one", "big/two.bin", "scratch.tmp", "dir/s.tmp", "secret2",
-		"vendor/lib.go", "third_party/dep/x.c", "[generated]/api.go", "top.c", "src/main.c"}
-	nb := r.Range(1, 3)
-	sp.Branches = []string{"main", "dev", "rel"}[:nb]
+		"vendor/lib.go", "third_party/dep/x.c", "[generated]/api.go", "top.c", "src/main.c", "keep/k.txt", "aa/k.txt"}
+	nb := r.Range(1, 4)
+	sp.Branches = []string{"main", "dev", "rel", "exp"}[:nb]
 	sp.Trees = map[string]map[string]fileSpec{}
 	for _, b := range sp.Branches {
 		t := map[string]fileSpec{}
@@ -608,6 +663,9 @@ func genRepo(r *gen.Rand) repoSpec {
 			c := r.Intn(12)
 			if r.Chance(1, 2) {
 				c = r.Intn(4) // identical blobs at different paths and on different branches
+			}
+			if (strings.HasPrefix(p, "big/") || strings.HasSuffix(p, "/k.txt") || p == "a.txt" || p == "secret2") && r.Chance(1, 2) {
+				c = gen.Pick(r, []int{6, 11}) // the same over-limit blob at exempted and non-exempted paths
 			}
 			if o, ok := sp.Trees["main"][p]; ok && r.Chance(1, 2) {
 				t[p] = o
@@ -883,7 +941,7 @@ func runRepo(w *gen.Writer, sp repoSpec, tmp string) {
 				RepositoryDescription: zoekt.Repository{Name: "repository"},
 				DisableCTags:          true,
 				SizeMax:               sp.SizeMax,
-				LargeFiles:            []string{"big/**"}, // also keeps the cat-file path usable with git < 2.50 (no --filter)
+				LargeFiles:            largeFiles,
 			},
 		}
 		opts.BuildOptions.SetDefaults()
@@ -948,7 +1006,7 @@ func runRepo(w *gen.Writer, sp repoSpec, tmp string) {
 				if wk.path != d.Name {
 					continue
 				}
-				exp := expectedCode(contentOf[wk.hash], sp.SizeMax, strings.HasPrefix(d.Name, "big/"), wk.hash == missingHash, name)
+				exp := expectedCode(contentOf[wk.hash], sp.SizeMax, allowLarge(d.Name), wk.hash == missingHash, name)
 				if exp == docCode(d.Content) && sameSet(want[wk], d.Branches) {
 					k, found = wk, true
 				}
@@ -1000,7 +1058,7 @@ func runRepo(w *gen.Writer, sp repoSpec, tmp string) {
 			}
 		}
 		w.Emit(gen.Case{
-			In:   fmt.Sprintf("doc2 %d %s 0 %s %s", sp.SizeMax, b01(strings.HasPrefix(wk.path, "big/")), b01(present), gen.Hex(c)),
+			In:   fmt.Sprintf("doc2 %d %s 0 %s %s", sp.SizeMax, b01(allowLarge(wk.path)), b01(present), gen.Hex(c)),
 			Impl: fmt.Sprintf("g=%s c=%s", gd, cdoc), Key: k, Class: "e2e:doc:" + strings.SplitN(gd, ":", 2)[0], Nontrivial: true, Detail: detail,
 		})
 	}
